@@ -1,6 +1,7 @@
 """C14 -- declared scheme applicability is truthful; complete data is never refused."""
 from .. import grids, algorun
 from . import algo_common as ac
+from . import extras_common
 
 PID = "C14"
 RULE = ("case = (algorithm configuration incl. nested starters/auxiliaries, scheme, dataset): the predicate "
@@ -64,4 +65,5 @@ def stages(tier, rng, only=None):
         [ac.cyclic_dataset(rng, 3, 5, incomplete=k % 3 != 0) for k in range(150 if tier == "quick" else 1500)]
         + [ac.two_cycles(rng) for _ in range(6 if tier == "quick" else 40)]
         + [ac.cycle_plus(rng) for _ in range(40 if tier == "quick" else 400)], sch, 1), _nt))
+    out += extras_common.c14_stages(tier, rng)      # specified behaviour outside the listed properties (drift only)
     return [s for s in out if not only or s.name == only]
